@@ -195,11 +195,13 @@ def main(tier):
                 run.violation("mode-sequence:answer-depends-on-the-earlier-mode-run", rep)
             elif not (int(mm.group(1)[1:]) <= int(mm.group(3)[1:]) <= int(mm.group(2)[1:])):
                 run.violation("mode-sequence:not-bracketed", rep)
-        # documented size limit: one directed probe
-        out = run.go_only("vm-limit", [f"runseq {m},L30000 {r.getrandbits(128):032x} {hx('d9223372036854775807')}" for m in ("m", "-", "M")])
-        ms = [re.match(r"ok i(-?\d+) ", x[1]) for x in out]
-        if all(ms) and not (int(ms[0].group(1)) <= int(ms[1].group(1)) <= int(ms[2].group(1))):
-            run.known_finding("C15-sides-above-supported-size", {"source": "d9223372036854775807", "min/random/max": [x[1] for x in out]})
+        # the largest die an int64 can name (it used to roll 0 in random mode, below its min-mode value)
+        for big in ("d9223372036854775807", "d9223372036854775806", "2d4611686018427387903"):
+            out = run.go_only("vm-limit", [f"runseq {m},L30000 {r.getrandbits(128):032x} {hx(big)}" for m in ("m", "-", "M")])
+            ms = [re.match(r"ok i(-?\d+) ", x[1]) for x in out]
+            run.nontriv(("limit", big))
+            if not all(ms) or not (int(ms[0].group(1)) <= int(ms[1].group(1)) <= int(ms[2].group(1))) or int(ms[1].group(1)) < 1:
+                run.violation("vm-modes:not-bracketed", {"source": big, "min/random/max": [x[1][:120] for x in out]})
     return run.finish(
         trusted=["Lean 4.33 kernel", "axioms: propext, Classical.choice, Quot.sound", "Go harness + Lean driver"],
         rule="(PCG state, times, sides, min, max, keep/drop, k) tuples each run in min, random and max mode; Fate/CoC likewise; "
